@@ -380,6 +380,35 @@ def in_keyerror_try(acc_node_stmt, expr):
     return None, None
 
 
+def _takewhile_not_none(fi, get_call):
+    """`get_call` is the element of a generator / list comprehension whose only consumer is
+    itertools.takewhile(lambda v: v is not None, <it>)."""
+    comp = None
+    for a in ancestors(get_call):
+        if isinstance(a, (ast.GeneratorExp, ast.ListComp)) and a.elt is get_call:
+            comp = a
+            break
+        if isinstance(a, ast.stmt):
+            break
+    if comp is None:
+        return False
+
+    def pred_ok(f):
+        return isinstance(f, ast.Lambda) and len(f.args.args) == 1 and isinstance(f.body, ast.Compare) and len(f.body.ops) == 1 and \
+            isinstance(f.body.ops[0], ast.IsNot) and isinstance(f.body.left, ast.Name) and f.body.left.id == f.args.args[0].arg and \
+            isinstance(f.body.comparators[0], ast.Constant) and f.body.comparators[0].value is None
+    par = getattr(comp, "_parent", None)
+    if isinstance(par, ast.Call) and (dotted(par.func) or "").endswith("takewhile") and len(par.args) == 2 and par.args[1] is comp and pred_ok(par.args[0]):
+        return True
+    if isinstance(par, ast.Assign) and len(par.targets) == 1 and isinstance(par.targets[0], ast.Name):
+        name = par.targets[0].id
+        uses = [x for x in ast.walk(fi.node) if isinstance(x, ast.Name) and x.id == name and isinstance(x.ctx, ast.Load)]
+        if len(uses) == 1:
+            p2 = getattr(uses[0], "_parent", None)
+            return isinstance(p2, ast.Call) and (dotted(p2.func) or "").endswith("takewhile") and len(p2.args) == 2 and p2.args[1] is uses[0] and pred_ok(p2.args[0])
+    return False
+
+
 def explore_miss(repo, s, fi, ft, acc, rule_use, rule_quiet, accs):
     """Explore the CFG from the lookup under the assumption that it missed."""
     cfg = ft.cfg
@@ -394,6 +423,12 @@ def explore_miss(repo, s, fi, ft, acc, rule_use, rule_quiet, accs):
             var = st.targets[0].id
         elif start.kind == "test":
             var = None  # `if C.get(k) is None` style: the test itself decides
+        elif _takewhile_not_none(fi, acc.expr):
+            # the lookups are consumed through itertools.takewhile(lambda v: v is not None, ...): the walk ends at the first miss and the
+            # missing value itself is never used
+            rule_use.ok({"function": fi.key, "lookup": short(acc.expr), "miss": "takewhile(... is not None)"})
+            rule_quiet.ok({"function": fi.key, "lookup": short(acc.expr), "miss": "ends the walk"})
+            return
         else:
             rule_use.fail_fn(fi, acc.expr, "lookup %s.get result used inline" % acc.path[0],
                              "the result of %s is used without a miss test: %s" % (short(acc.expr), short(start.stmt)))
